@@ -33,6 +33,22 @@ unsigned gridb_countInternal(void)
 unsigned gridb_countExternal(void)
 /*@BODY b_countExternal@*/
 
+/* Grid::components(): vector<vector<Cell*>> res -> rows of a 2-D array; the auxiliary unordered_map ch (coord -> component)
+ * is keyed by the cell (coordinates are unique per present cell). */
+#if W == 2
+#define DEGMAX DIM
+#else
+#define DEGMAX (2 * DIM)
+#endif
+#define QMAX (DEGMAX * NPOS + 2)   /* one initial push + at most deg pushes per processed cell */
+CellRef res[NPOS + 1][QMAX]; size_t res_rowsize[NPOS + 1]; size_t res_size; int ch_[NC];
+#define RES_NEW_ROW() do { __CPROVER_assert(res_size < NPOS + 1, "rows"); res_rowsize[res_size++] = 0; } while (0)
+#define RES_PUSH(q, x) do { __CPROVER_assert(res_rowsize[q] < QMAX, "queue capacity"); res[q][res_rowsize[q]++] = (x); } while (0)
+#define RES_ERASE(q, i) do { __CPROVER_assert((i) < res_rowsize[q], "erase within the vector"); for (size_t e_ = 0; e_ + 1 < QMAX; e_++) if (e_ >= (i) && e_ + 1 < res_rowsize[q]) res[q][e_] = res[q][e_ + 1]; res_rowsize[q]--; } while (0)
+#define RES_SORT_BY_SIZE() do { } while (0)   /* ordering of the components by size is not part of the property */
+void grid_components(void)
+/*@BODY components@*/
+
 /* ------------------------------------------------------------------ harness side (trusted) */
 bool nondet_bool(void); unsigned nondet_unsigned(void);
 static void coord_of_slot(unsigned s, int *c) { for (int d = DIM - 1; d >= 0; d--) { c[d] = (int)(s % W); s /= W; } }
@@ -51,7 +67,13 @@ static void any_grid(bool with_heaps)
     hasBounds_ = nondet_bool();
     for (int d = 0; d < DIM; d++) { lowBound_[d] = nondet_bool() ? 0 : -1; upBound_[d] = nondet_bool() ? W - 1 : W; }
     for (unsigned r = 0; r < NC; r++) { alive[r] = 0; member[0][r] = member[1][r] = 0; stale[r] = 0; }
-    for (unsigned s = 0; s < NPOS; s++) { bool p = nondet_bool(); PRESENT0[s] = p; table[s] = p ? s + 1 : NULLREF; if (p) { alive[s + 1] = 1; coord_of_slot(s, C_coord[s + 1]); C_data[s + 1] = nondet_int(); DATA0[s + 1] = C_data[s + 1]; } }
+    for (unsigned s = 0; s < NPOS; s++) {
+#ifdef PRESENT_MASK
+        bool p = (PRESENT_MASK >> s) & 1;   /* one concrete occupancy pattern per solver process (all patterns are enumerated) */
+#else
+        bool p = nondet_bool();
+#endif
+        PRESENT0[s] = p; table[s] = p ? s + 1 : NULLREF; if (p) { alive[s + 1] = 1; coord_of_slot(s, C_coord[s + 1]); C_data[s + 1] = nondet_int(); DATA0[s + 1] = C_data[s + 1]; } }
     for (unsigned s = 0; s < NPOS; s++) if (table[s])
     {
         CellRef c = s + 1; C_neighbors[c] = spec_present_neighbors(C_coord[c]) + spec_boundary(C_coord[c]); C_border[c] = C_neighbors[c] < interiorCellNeighborsLimit_;
@@ -176,4 +198,31 @@ void h_b_tops(void)
         }
     }
     if (ni == 0 && ne > 0) REACH("no interior cell"); if (ne == 0 && ni > 0) REACH("no border cell"); if (ni + ne == 0) REACH("empty grid");
+}
+
+void h_components(void)
+{
+    any_grid(false);
+    grid_components();
+    REACH("components returned");
+    /* specification: connected components of the neighbour relation by label propagation to a fixpoint */
+    unsigned label[NPOS]; for (unsigned s = 0; s < NPOS; s++) label[s] = s;
+    for (unsigned round = 0; round < NPOS; round++)
+        for (unsigned s = 0; s < NPOS; s++) if (table[s])
+        {
+            int c[DIM]; coord_of_slot(s, c);
+            for (int d = 0; d < DIM; d++) for (int e = -1; e <= 1; e += 2) { c[d] += e; if (HASH_FIND(c) && label[slot_of(c)] < label[s]) label[s] = label[slot_of(c)]; c[d] -= e; }
+        }
+    unsigned comp_of[NPOS]; unsigned ncomp = 0;
+    for (unsigned s = 0; s < NPOS; s++) if (table[s])
+    {
+        if (label[s] == s) ncomp++;
+        unsigned occ = 0;
+        for (unsigned r = 0; r < NPOS + 1; r++) if (r < res_size) for (unsigned i = 0; i < QMAX; i++) if (i < res_rowsize[r] && res[r][i] == table[s]) { occ++; comp_of[s] = r; }
+        __CPROVER_assert(occ == 1, "C13.components every present cell is listed in exactly one component, exactly once");
+    }
+    __CPROVER_assert(res_size == ncomp, "C13.components as many components as the neighbour relation has");
+    for (unsigned r = 0; r < NPOS + 1; r++) if (r < res_size) { __CPROVER_assert(res_rowsize[r] > 0, "no empty component"); for (unsigned i = 0; i < QMAX; i++) if (i < res_rowsize[r]) __CPROVER_assert(res[r][i] != NULLREF && res[r][i] <= NPOS && table[res[r][i] - 1] == res[r][i], "C13.components only present cells are listed"); }
+    unsigned a = nondet_unsigned(), b = nondet_unsigned(); __CPROVER_assume(a < NPOS && b < NPOS && table[a] && table[b]);
+    __CPROVER_assert((comp_of[a] == comp_of[b]) == (label[a] == label[b]), "C13.components two cells share a component exactly when the neighbour relation connects them");
 }
